@@ -196,7 +196,8 @@ pub struct TspProblem {
     pub stats: Arc<Stats>,
 }
 impl TspProblem {
-    /// kind 0: points on a line (symmetric); 1: asymmetric; 2: very unequal distances (1e-3 .. 1e6)
+    /// kind 0: points on a line (symmetric); 1: asymmetric; 2: very unequal distances (1e-3 .. 1e6);
+    /// 3: one very remote city (1e120 from everything else: (1/d)^beta underflows for beta = 5)
     pub fn new(kind: u8, dim: usize) -> Self {
         let mut dist = vec![vec![0.0; dim]; dim];
         for i in 0..dim {
@@ -208,7 +209,14 @@ impl TspProblem {
                 dist[i][j] = match kind {
                     0 => (b - a) + 0.125 * ((a * 7.0 + b * 3.0) % 5.0),
                     1 => 1.0 + ((i * 5 + j * 11) % 7) as f64 + if i < j { 0.5 } else { 0.0 },
-                    _ => 10f64.powi(((i * 3 + j * 3 + a as usize) % 10) as i32 - 3),
+                    2 => 10f64.powi(((i * 3 + j * 3 + a as usize) % 10) as i32 - 3),
+                    _ => {
+                        if i == dim - 1 || j == dim - 1 {
+                            1e120
+                        } else {
+                            1.0 + (b - a)
+                        }
+                    }
                 };
             }
         }
